@@ -2105,3 +2105,48 @@ def name_tag_purity(ctx, funcs, pairs=(('ns', 'ew'), ('twp', 'rge')), rule='SIB'
                     where=loc(fi, foreign[0][1]) if foreign else None,
                     why='both siblings mix the members; not judged')
     return n
+
+
+def refinement_discarded(ctx, funcs, rule='DEFUSE'):
+    """`num = raw` ... `if ...: num = raw[:-1]` (the direction letter split
+    off) ... `num = convert(raw)`: the last statement goes back to the raw
+    parameter and throws the refinement away on every path that took it.  The
+    sibling shape - `num = convert(num)` - is what the code has wherever the
+    refinement matters."""
+    from .. import flow as _flow
+    from ..srcmodel import guards
+    n = 0
+    for fi in funcs:
+        params = set(fi.params())
+        assigns = [a for a in walk_local(fi.node) if isinstance(a, ast.Assign) and len(a.targets) == 1 and isinstance(a.targets[0], ast.Name)]
+        by_name = {}
+        for a in assigns:
+            by_name.setdefault(a.targets[0].id, []).append(a)
+        for name, defs in by_name.items():
+            if name in params or len(defs) < 3:
+                continue
+            refined = [a for a in defs if isinstance(a.value, ast.Subscript) and isinstance(a.value.value, ast.Name)
+                       and a.value.value.id in params and guards(a)]
+            if not refined:
+                continue
+            raw = refined[0].value.value.id
+            for a in defs:
+                if a.lineno <= refined[0].lineno or not isinstance(a.value, ast.Call):
+                    continue
+                arg_names = {x.id for x in ast.walk(a.value) if isinstance(x, ast.Name)}
+                if raw in arg_names and name not in arg_names:
+                    try:
+                        cfg, rd = _flow.analyse(fi.node)
+                        reaches = any(rd.defs.get(d) is refined[0].value for d in rd.reaching(_flow.stmt_node(cfg, a), name))
+                    except Exception:
+                        reaches = True
+                    if not reaches:
+                        continue
+                    n += 1
+                    ctx.violation(rule, f"{fi.qualname}: `{norm(a)[:50]}` works on the refined `{name}`",
+                                  f"`{norm(a)[:60]}` reads the raw parameter `{raw}` although `{name}` was derived from it before "
+                                  f"(`{norm(refined[0])[:40]}`, under a condition): on the paths that took the refinement its result is "
+                                  f"thrown away - here the direction letter that was split off is back in the number, and the OCR table "
+                                  f"turns a trailing 's' / 'S' into a digit ('15s' -> '155')",
+                                  key=f"{rule}|{fi.qualname}|refinement-discarded|{name}", where=loc(fi, a))
+    return n
